@@ -2,6 +2,7 @@
 //   wr <dir> <n|g|x> <nm|fd> <case id> <op> <op> ...
 //     c:<size>:<z|r|p>:<seed>   write one chunk of <size> bytes (zeros / pseudo-random / pattern)
 //     r                         rotate_output to the next target
+//     k                         also report every deflate / lzma_code call: K <avail_in>:<finish>:<avail_out>:<consumed>:<produced>:<stream end>,… ('|' after each output)
 //     (end of line)             destroy the writer
 //   outputs are files <dir>/w<line>_<k>[.gz|.xz] (descriptor targets are files opened by the harness)
 //   answer: I ok|E:<what> | <path> <path> ... | crc=<crc32 of all plain bytes per output, comma separated> len=<lengths>
@@ -10,6 +11,30 @@
 #include <zlib.h>
 #include <fcntl.h>
 #include <unistd.h>
+#include <dlfcn.h>
+#include <lzma.h>
+
+// every call the library makes to the compressors, for the correspondence of Model.Writer's write/finish loops (op `k`):
+// deflate / lzma_code are defined in the harness executable (the library's calls resolve here), the real ones via RTLD_NEXT
+namespace { std::string* g_klog = nullptr; }
+extern "C" int deflate(z_streamp strm, int flush) {
+    typedef int (*fn)(z_streamp, int);
+    static fn real = reinterpret_cast<fn>(dlsym(RTLD_NEXT, "deflate"));
+    unsigned long ai = strm->avail_in, ao = strm->avail_out;
+    int ret = real(strm, flush);
+    if (g_klog) *g_klog += std::to_string(ai) + ":" + (flush == Z_FINISH ? "1" : "0") + ":" + std::to_string(ao) + ":" + std::to_string(ai - strm->avail_in) + ":" +
+                           std::to_string(ao - strm->avail_out) + ":" + (ret == Z_STREAM_END ? "1" : "0") + ",";
+    return ret;
+}
+extern "C" lzma_ret lzma_code(lzma_stream* strm, lzma_action action) {
+    typedef lzma_ret (*fn)(lzma_stream*, lzma_action);
+    static fn real = reinterpret_cast<fn>(dlsym(RTLD_NEXT, "lzma_code"));
+    unsigned long ai = strm->avail_in, ao = strm->avail_out;
+    lzma_ret ret = real(strm, action);
+    if (g_klog) *g_klog += std::to_string(ai) + ":" + (action == LZMA_FINISH ? "1" : "0") + ":" + std::to_string(ao) + ":" + std::to_string(ai - strm->avail_in) + ":" +
+                           std::to_string(ao - strm->avail_out) + ":" + (ret == LZMA_STREAM_END ? "1" : "0") + ",";
+    return ret;
+}
 
 namespace {
 std::string make_chunk(std::size_t size, char kind, uint64_t seed) {
@@ -38,6 +63,10 @@ int vh::run_wr(int, char**) {
         int serial = 0;
         auto next_name = [&]() { return dir + "/w" + cid + "_" + std::to_string(serial++); };
         std::string status = "ok";
+        std::string klog;
+        bool want_klog = false;
+        for (std::size_t i = 5; i < a.size(); i++) if (a[i] == "k") want_klog = true;
+        g_klog = want_klog ? &klog : nullptr;
         try {
             std::unique_ptr<CDNS::BaseCborOutputWriter> w;
             auto open_target = [&](bool first) {
@@ -59,10 +88,11 @@ int vh::run_wr(int, char**) {
                         else w = std::make_unique<CDNS::CborOutputWriter>(fd);
                     } else w->rotate_output(fd);
                 }
+                if (!first) klog += "|";          // the calls so far belong to the outputs closed so far
             };
             open_target(true);
             for (std::size_t i = 5; i < a.size(); i++) {
-                if (a[i].empty()) continue;
+                if (a[i].empty() || a[i] == "k") continue;
                 if (a[i] == "r") { open_target(false); continue; }
                 auto p = vh::split(a[i], ':');
                 std::string chunk = make_chunk(std::strtoull(p[1].c_str(), nullptr, 10), p[2][0], std::strtoull(p[3].c_str(), nullptr, 10));
@@ -70,6 +100,7 @@ int vh::run_wr(int, char**) {
                 crcs.back() = crc32(crcs.back(), reinterpret_cast<const Bytef*>(chunk.data()), chunk.size());
                 lens.back() += chunk.size();
             }
+            w.reset();
         } catch (std::exception& e) { status = std::string("E:") + e.what(); for (char& c : status) if (c == ' ') c = '_'; }
         std::string out = "I " + status + " |";
         for (auto& p : paths) out += " " + p;
@@ -77,6 +108,8 @@ int vh::run_wr(int, char**) {
         for (std::size_t i = 0; i < crcs.size(); i++) out += (i ? "," : "") + std::to_string(crcs[i]);
         out += " len=";
         for (std::size_t i = 0; i < lens.size(); i++) out += (i ? "," : "") + std::to_string(lens[i]);
+        g_klog = nullptr;
+        if (want_klog) out += " | K " + klog;
         std::cout << out << std::endl;
         ln++;
     }
